@@ -398,6 +398,11 @@ func (ex *Exec) Run() (v *Violation, harnessErr string) {
 		ex.sim = sched.New(ex.tape)
 		ex.sim.TraceOn = TraceAll
 		ex.sim.OnUnsafeDie = ex.lockForDyingTask
+		if ex.cfg.Profile == "C15" {
+			// 64 MiB entries: a single step (encode, CRC, compare) can take many
+			// seconds of wall time when 16 workers do the same
+			ex.sim.WatchdogSecs = 300
+		}
 		ex.sim.StickNum, ex.sim.StickDen = ex.cfg.StickNum, ex.cfg.StickDen
 		if ex.hookLog != nil {
 			ex.sim.OnHook = ex.hookLog
